@@ -82,6 +82,23 @@ Example C09_sort_nonvacuous :
   /\ ~ order_compatible [c09_foo_bar_x; c09_foo_y].
 Proof. split; [vm_compute; reflexivity|]. unfold order_compatible. vm_compute. discriminate. Qed.
 
+(* representability alone is not enough: the names of finding GCS-2 are lex-ascending and
+   representable, but not order-compatible *)
+Example C09_representable_not_enough :
+  representable [c09_foo_bar_x; c09_foo_y]
+  /\ StronglySorted lex_lt [c09_foo_bar_x; c09_foo_y]
+  /\ ~ order_compatible [c09_foo_bar_x; c09_foo_y].
+Proof.
+  split; [|split].
+  - split.
+    + repeat constructor; try discriminate; vm_compute; intuition discriminate.
+    + intros n m Hn Hm [t [Ht E]]. cbn in Hn, Hm.
+      destruct Hn as [<-|[<-|[]]]; destruct Hm as [<-|[<-|[]]]; vm_compute in E;
+        try discriminate E; injection E; intros; subst; try discriminate; try congruence; apply Ht; reflexivity.
+  - repeat constructor.
+  - unfold order_compatible. vm_compute. discriminate.
+Qed.
+
 (* bucket {"a/b", "a/c/d", "e"}: sorted, representable, order-compatible; a listing with a
    delimiter collapses a/ on both stores *)
 Example C09_compatible_nonvacuous :
